@@ -81,6 +81,7 @@ type vregState struct {
 	meta    map[int][3]string // group, httpUser, httpPassword of a running proxy
 	mu      sync.Mutex
 	hits    []string
+	cn      vregConns // client connections (eng_vreg_conn.go)
 }
 
 var vregSt *vregState
@@ -92,8 +93,9 @@ func vregReset(sh string) {
 		}
 		vregSt.lnS.Close()
 		vregSt.lnM.Close()
+		vregSt.closeConns()
 	}
-	st := &vregState{pxs: map[int]proxy.Proxy{}, meta: map[int][3]string{}, lnS: newVregLn(), lnM: newVregLn()}
+	st := &vregState{cn: vregConns{conns: map[string]*rcConn{}}, pxs: map[int]proxy.Proxy{}, meta: map[int][3]string{}, lnS: newVregLn(), lnM: newVregLn()}
 	cfg := &v1.ServerConfig{}
 	cfg.Complete()
 	cfg.SubDomainHost = sh
@@ -250,6 +252,9 @@ func vregExec(tok []string) string {
 		vregReset("") // the driver's initial state: empty subDomainHost
 	}
 	st := vregSt
+	if r, ok := vregConnExec(st, tok); ok {
+		return r
+	}
 	switch tok[0] {
 	case "run":
 		hu, hp := "", ""
@@ -382,6 +387,7 @@ type vregGenState struct {
 	live   []vregGenPx
 	probes []string
 	sh     string
+	cid    int
 }
 
 func (g *vregGenState) req(line string) {
@@ -672,6 +678,8 @@ func vregGen(rng *rand.Rand, n int, emit func(string)) {
 			g.req("sreq " + hx(nm))
 		case k < 90:
 			g.again(1 + rng.Intn(3))
+		case k < 95:
+			g.connEpisode()
 		default:
 			g.emit("view")
 		}
